@@ -15,6 +15,7 @@ CONSTANTS
   Weak_NoDoubleSignCheck = FALSE
   Weak_SeenByCommitSlotRange = FALSE
   Weak_TrustsEncodedTotal = FALSE
+  Weak_IncompleteIdSignsAsNil = FALSE
   Weak_NoBlockIDCheck = FALSE
   Weak_SignBytesIgnoreRound = FALSE
 INIT CaseInit
